@@ -11,12 +11,26 @@ def dump_tables():
         raise Broken("gvgen dump failed: the observation tables cannot be regenerated from /repo", o[-3000:])
 
 
+def translate_alias():
+    """T-gen for C17: alias IR of every map/slice-returning function of veproduct and veconst"""
+    out = os.path.join(common.GEN, "AliasGen.v")
+    rc, o = common.sh([common.GVGEN, "alias", common.REPO, out], timeout=300)
+    if rc != 0:
+        raise Broken("gvgen alias failed: veproduct/veconst can no longer be translated into the alias IR (tie T-gen, C17)", o[-3000:])
+
+
+ALIAS_BROKEN = None
 BLE_BROKEN = None   # set when /repo/bleparser can no longer be translated (the stale Gen/BleImpl.v is kept)
 
 
 def regenerate_all():
-    global BLE_BROKEN
+    global BLE_BROKEN, ALIAS_BROKEN
     dump_tables()
+    ALIAS_BROKEN = None
+    try:
+        translate_alias()
+    except Broken as b:
+        ALIAS_BROKEN = b
     from lib import blegen
     BLE_BROKEN = None
     try:
